@@ -104,7 +104,7 @@ pub fn targets_of(prop: &str) -> Vec<(&'static str, &'static str, u64)> {
         "C08" => vec![("structured_712", "digest", 2_000_000)],
         "C09" => vec![("structured_c09", "mutated", 2_000_000)],
         "C13" => vec![("structured_c13", "numbers", 4_000_000)],
-        "C14" => vec![("path", "text", 5_000_000)],
+        "C14" => vec![("path", "text", 3_000_000)],
         "C15" => vec![("signature", "text", 5_000_000)],
         "C17" => vec![
             ("mnemonic", "library", 4_000_000),
